@@ -280,9 +280,15 @@ def ladder(gm: GrammarModel, root: str = 'expression') -> list[Level]:
 				levels.append(Level(cur, alias or cur, 'prefix', op_tokens(names[0]), cur, depth))
 				continue
 			# Y "if" Y "else" X
-			if len(vs) == 5 and lit(vs[1]) == 'if' and lit(vs[3]) == 'else' and names[0] and names[2] == names[0]:
-				levels.append(Level(cur, alias or cur, 'ternary', ['if-else'], names[0], depth))
-				if names[4] != cur:
+			if len(vs) == 5 and lit(vs[1]) == 'if' and lit(vs[3]) == 'else' and names[0] and names[2]:
+				# CPython: or_test "if" or_test "else" test  (value and condition one level down, the else branch recursive)
+				lower = names[2] if names[0] == cur else names[0]
+				levels.append(Level(cur, alias or cur, 'ternary', ['if-else'], lower, depth))
+				if names[0] == cur:
+					levels[-1].tokens = ['if-else(left-recursive value)']
+				elif names[2] != names[0]:
+					levels[-1].tokens = ['if-else(condition on another level)']
+				elif names[4] != cur:
 					levels[-1].tokens = ['if-else(non-recursive else)']
 				continue
 			if len(vs) == 1 and names[0]:
